@@ -253,12 +253,14 @@ evkind(const struct ev_s *e)
 }
 
 /* ---------------- enabled events ---------------- */
+static int narrow;	/* --opt alpha=narrow */
+
 static int
 enabled(struct ev_s *ev, int max)
 {
 	int n = 0;
 	const int nusers = prop == 11 ? 2 : 1;
-	const int nuids = prop == 11 ? 3 : 2;
+	const int nuids = prop == 11 ? 3 : (narrow && prop == 4) ? 1 : 2;
 
 #define PUSH(...)	do { if (n < max) ev[n++] = (struct ev_s){__VA_ARGS__}; } while (0)
 	/* clock events first: they are the simplest */
@@ -271,14 +273,14 @@ enabled(struct ev_s *ev, int max)
 	if (armed || zombies) {
 		PUSH(E_TICK_ONTIME);
 	}
-	if (armed && e - hx_now > 0.75) {
+	if (armed && e - hx_now > 0.75 && !narrow) {
 		PUSH(E_TICK_IDLE);
 	}
-	if (armed && e > hx_now && prop == 4) {
+	if (armed && e > hx_now && prop == 4 && !narrow) {
 		/* wake up exactly on the second of the next occurrence: it is not due yet (strictly before) */
 		PUSH(E_TICK_EXACT);
 	}
-	if (armed && prop != 11) {
+	if (armed && prop != 11 && !narrow) {
 		/* the task due first, k further occurrences */
 		for (int i = 0; i < M_MAXT; i++) {
 			struct mtask_s *t = &M.t[i];
@@ -298,8 +300,15 @@ enabled(struct ev_s *ev, int max)
 	/* commands */
 	for (int u = 0; u < nusers; u++) {
 		for (int k = 0; k < nuids; k++) {
-			if (prop == 4) {
+			if (prop == 4 && narrow) {
+				/* one UID, two short schedules, on-time wake-ups only: room for long histories */
+				PUSH(E_ADD, u, k, 1);
+				PUSH(E_ADD, u, k, 2);
+			} else if (prop == 4) {
 				for (int tp = 0; tp < 5; tp++) PUSH(E_ADD, u, k, tp);
+			} else if (prop == 12 && narrow) {
+				/* X = uid A with limit 2, Y = uid B with limit 1, on-time wake-ups only */
+				PUSH(E_ADD, u, k, k == 0 ? 6 : 5);
 			} else if (prop == 12) {
 				/* X = uid A with limit variants, Y = uid B unset or 1 */
 				if (k == 0) {
@@ -473,6 +482,9 @@ apply(const struct ev_s *e)
 	evname(name, sizeof(name), e);
 	snprintf(hist + strlen(hist), sizeof(hist) - strlen(hist), "%s%s", hist[0] ? " " : "", name);
 	vd_desc("%s", hist);
+	if (getenv("E2_TRACE")) {
+		fprintf(stderr, "%s\n", hist);
+	}
 
 	switch (e->kind) {
 	case E_ADD:
@@ -724,6 +736,15 @@ canon(void)
 			for (int i = 0; i < nobs; i++) {
 				if ((void*)obs[i].ptr == hx_chld[c]->data) occ = obs[i].uid;
 			}
+			/* a slot nobody occupies is either held back for this child or already up for reuse:
+			 * the next ADD behaves differently */
+			{
+				/* bounded: a slot released twice makes the list cyclic */
+				int guard = 0;
+				for (_task_t f = free_tasks; f != NULL && guard < 4096; f = f->next, guard++) {
+					if ((void*)f == hx_chld[c]->data) occ = "freed";
+				}
+			}
 			const char *spawner = "?";
 			for (int q = 0; q < M.nchld; q++) {
 				if (M.chld[q].pid == hx_chld[c]->pid) {
@@ -952,6 +973,7 @@ enumerate(void)
 	hist[0] = '\0';
 
 	hx_drift = strtod(vd_opt("drift", "0"), NULL);
+	narrow = !strcmp(vd_opt("alpha", "full"), "narrow");
 	if (!strcmp(vd_opt("mode", "explore"), "sweep")) {
 		for (int N = 1; N <= 62; N++) {
 			if (!vd_next()) continue;
